@@ -369,6 +369,50 @@ func runC18(r *Run) {
 		}
 	})
 
+	r.rule("R9", "keys stored into the host map are private copies (E3): a map assignment replaces the stored key string", func() {
+		var fresh func(v ssa.Value, d int) bool
+		fresh = func(v ssa.Value, d int) bool {
+			if d > 6 {
+				return false
+			}
+			switch x := v.(type) {
+			case *ssa.Convert:
+				_, fromSlice := x.X.Type().Underlying().(*types.Slice)
+				return fromSlice // string(b) copies
+			case *ssa.Call:
+				n := calleeName(&x.Call)
+				return strings.HasSuffix(n, "utils/v2.CopyString") || n == "strings.Clone" || strings.HasPrefix(n, "fmt.Sprint") || strings.HasPrefix(n, "strconv.")
+			case *ssa.BinOp:
+				return x.Op == token.ADD // concatenation allocates
+			case *ssa.Const:
+				return true
+			case *ssa.Phi:
+				for _, e := range x.Edges {
+					if !fresh(e, d+1) {
+						return false
+					}
+				}
+				return true
+			}
+			return false
+		}
+		n := 0
+		ord := map[string]int{}
+		r.P.AllFuncs(cliPkg, func(f *ssa.Function) {
+			for _, in := range instrsWhere(f, func(in ssa.Instruction) bool {
+				mu, ok := in.(*ssa.MapUpdate)
+				return ok && loadOfField(mu.Map, "client.CookieJar.hostCookies")
+			}) {
+				mu := in.(*ssa.MapUpdate)
+				n++
+				ord[f.Name()]++
+				r.check(fresh(mu.Key, 0), fmt.Sprintf("hostCookies-store-key:%s#%d", f.Name(), ord[f.Name()]), r.pos(in), "the key is a private copy (string(b) / CopyString)",
+					f.Name()+" assigns hostCookies[k] with a key that may be a view of the caller's buffer (utils.UnsafeString): Go replaces the stored key on assignment, so when the buffer is reused (pooled requests) the entry's key changes in place — cookies stored for a.example are no longer found, or surface under another host")
+			}
+		})
+		r.atLeast("host map stores", n, 3)
+	})
+
 	r.rule("R6", "jar state only under its mutex (E2)", func() {
 		n := 0
 		ord6 := map[string]int{}
